@@ -9,7 +9,7 @@
 // kinds raft1 / kill / net (thorough): real raft.NewConsensus nodes on loopback libp2p hosts,
 // see raft.go.
 //
-//   C01 <kind> <nrep> <ops> <events> => <obs> ...       obs = res~applied~view~calls
+//	C01 <kind> <nrep> <ops> <events> => <obs> ...       obs = res~applied~view~calls
 package main
 
 import (
@@ -523,6 +523,14 @@ func main() {
 		sc.Buffer(make([]byte, 1<<20), 1<<26)
 		for sc.Scan() {
 			f := strings.Fields(sc.Text())
+			if len(f) >= 4 && f[0] == "C01" && f[1] == "redir" {
+				if kind == "redir" {
+					if retries, err := strconv.Atoi(f[2]); err == nil && retries >= 0 && retries <= 5 {
+						runRedirCase(out, retries, strings.Split(f[3], ","))
+					}
+				}
+				continue
+			}
 			if len(f) < 5 || f[0] != "C01" {
 				continue
 			}
@@ -565,6 +573,18 @@ func main() {
 			r := root.Fork(uint64(k))
 			nrep, ops, events := genFSMCase(r, k, a.Tier)
 			runFSMCase(out, nrep, ops, events)
+		}
+	case "redir":
+		if n < 0 {
+			n = 3
+		}
+		for k := 0; k < n; k++ {
+			if a.Only >= 0 && k != a.Only {
+				continue
+			}
+			r := root.Fork(uint64(k) + 991)
+			retries, steps := genRedirCase(r, k)
+			runRedirCase(out, retries, steps)
 		}
 	default:
 		if n < 0 {
